@@ -95,14 +95,14 @@ Proof. intros H. rewrite <- (firstn_skipn n l). apply in_or_app; auto. Qed.
 
 Lemma Forall_pyslice {A} (P : A -> Prop) (l : list A) a b : Forall P l -> Forall P (pyslice l a b).
 Proof.
-  intros F. unfold pyslice, slice. apply Forall_forall. intros x Hx.
+  intros F. unfold pyslice; rewrite ?slice_raw; unfold slice0. apply Forall_forall. intros x Hx.
   rewrite Forall_forall in F. apply F. apply In_firstn_in in Hx. now apply In_skipn_in in Hx.
 Qed.
 
 Lemma length_pyslice_same {A B} (l : list A) (l' : list B) a b :
   length l = length l' -> length (pyslice l a b) = length (pyslice l' a b).
 Proof.
-  intros Hl. unfold pyslice, slice, len. rewrite !firstn_length, !skipn_length, Hl. reflexivity.
+  intros Hl. unfold pyslice, len; rewrite ?slice_raw; unfold slice0. rewrite !firstn_length, !skipn_length, Hl. reflexivity.
 Qed.
 
 Section T.
